@@ -18,6 +18,11 @@ THEOREMS = [
     "VK.stvStep_nonneg",
     "VK.stvLoop_rounds_ok",
     "VK.C09_stv_round_profiles",
+    "VK.statusLoop_find",
+    "VK.C09_status_elected",
+    "VK.C09_status_eliminated",
+    "VK.C09_status_remaining",
+    "VK.C09_status_never_listed",
 ]
 RULE = ("cases = finished election of any of the 18 rules (as generated for C01; failing constructions are skipped) x a "
         "history of 6-30 queries drawn with repetition from get_profile / get_step / get_elected / get_eliminated / "
